@@ -131,7 +131,7 @@ def kind_name(t):
 def doc_ok(src, tgt):
     s, t = src[0], tgt[0]
     if s in ("Null", "Full"):
-        return t in ("Bit", "BV", "U", "S")
+        return True
     if s == "IntLit":
         z = src[1]
         if t in ("Bit", "Bool"):
@@ -146,7 +146,7 @@ def doc_ok(src, tgt):
     if s == "StrLit":
         if t in ("BV", "U", "S"):
             return len(src[1]) == tgt[1]
-        if t == "Bit":
+        if t in ("Bit", "Bool"):
             return len(src[1]) == 1
         return False
     if s in ("Bit", "Bool"):
@@ -453,3 +453,27 @@ def cell_design(i, c):
 
 def run(ck: common.Check, replay=None):
     raise NotImplementedError
+
+
+# ----------------------------------------------------------------------------
+# (1) model tie
+# ----------------------------------------------------------------------------
+KCOQ = {"BV": "KB", "U": "KU", "S": "KS"}
+PRE = common.COQ_HEADER + "From Cohdl Require Import Models.Conv.\nLocal Open Scope Z_scope.\n"
+
+
+def coq_form(c):
+    f = FORMS[c["form"]][2]
+    if c["form"] in ("slice", "elem"):
+        return f"({f} {KCOQ[c['root']]})"
+    return f
+
+
+def tie_terms(cells, accepted):
+    return ["(%s, %s, %s, %s)" % (coq_form(c), coq_ty(c["src"]), coq_ty(c["tgt"]), "true" if a else "false")
+            for c, a in zip(cells, accepted)]
+
+
+TIE_TYPE = "form * cty * cty * bool"
+TIE_PRED = "fun c => match c with (f, s, t, a) => Bool.eqb (assign_ok f s t) a end"
+DOC_PRED = "fun c => match c with (f, s, t, a) => Bool.eqb (doc_ok s t) a end"
